@@ -10,7 +10,11 @@ TECHNIQUE = ('AST class-graph analysis: visitor-dispatch resolution, child-list 
              '(MINMAX: all outcomes of the pairwise comparisons; INPLACE: all kinds of target operands; SKEL: all truth assignments and loop-body outcomes); '
              'RESTORE: path-sensitive pairing (save / change / write back) over every visitor method; PARSEROLE: parse order of locals vs the role order of the grammar production; '
              'ARGBIND: the argument-unpacking generator of DefNodeWrapper is run by the TB interpreter on every signature of a finite family, the emitted C is parsed and executed on a machine model '
-             '(helpers by contract) for every call shape and compared with the binding algorithm of the language reference; INTEQ: the C evaluator of C19-LONGCMP on both return conventions of PyLongCompare')
+             '(helpers by contract) for every call shape and compared with the binding algorithm of the language reference; INTEQ: the C evaluator of C19-LONGCMP on both return conventions of PyLongCompare; '
+             'UNPACKRUN: the parallel-unpacking generator of SequenceNode is run by the TB interpreter for N = 1..6 targets x static type of the right-hand side, the emitted C is parsed '
+             '(#if blocks resolved for every macro assignment) and executed on a machine model for every run-time class of the right-hand side, compared with the assignment statement of the language reference; '
+             'AUGOP: the in-place flag of an augmented assignment followed link by link (tree built by ExpandInplaceOperators, NumBinopNode.py_operation_function interpreted for both flag values, '
+             'decision points of optimise_numeric_binop by the procedure of C02-INPL)')
 DECIDES = ('T1: every attribute a node class drives through a tree phase is listed in its child_attrs/subexprs; '
            'T2: every listed child is a defined attribute; V1: every visit_<Class> handler of every tree visitor names an existing node class '
            '(dispatch is by class name); V2: every transform handler returns a node on all paths (None deletes the node); '
@@ -39,6 +43,13 @@ DECIDES = ('T1: every attribute a node class drives through a tree phase is list
            '(0..max+1 positional arguments x every subset of {parameter names, one unknown name} as keywords) like the language reference: the same value reaches the same parameter (slot order of values[], '
            'keyword-name table, `values + K` base, positional count, defaults, final assignment agree), *args / **kw get the same content, TypeError is raised for exactly the same calls, the name reported as '
            'missing is a missing required keyword-only parameter, and no index leaves values[] / the name table / the argument vector; '
+           'UNPACKRUN: for `t0, .., tN-1 = rhs` (N = 1..6; rhs typed object / list / tuple / other builtin; may be None or not; every configuration of the tested macros) the C emitted by '
+           'SequenceNode.generate_parallel_assignment_code gives item i to target i, raises ValueError for too many / too few items with the right count after the same number of iterator steps as CPython, '
+           'propagates the iterator\'s exception, raises TypeError for None / non-iterables, for EVERY run-time class of rhs (exact tuple / list of 0..N+2 items, iterators of 0..N+2 items, iterators raising at each step), '
+           'never applies a tuple / list macro to another object or out of range, never reads an unfilled item slot, and releases the iterator and rhs exactly once on the normal path; '
+           'AUGOP: the expansion of `target OP= rhs` holds exactly one binary operation created with inplace=True and the statement\'s operator (every target shape); NumBinopNode.py_operation_function '
+           'returns an InPlace spelling exactly when the node is in-place (every operator of py_functions, every path); optimise_numeric_binop passes node.inplace to the fast-path helper for every '
+           'operator / literal kind / node class; '
            'INTEQ: all eight PyLongCompare helpers (Eq/Ne x operand order x int / object result) answer like Python for every class of the object operand relative to the constant (procedure of C19-LONGCMP).')
 NOT_DECIDED = ('that the generated C computes what CPython computes for any program.  UNPACK does not decide reference counting, the iterator protocol branch '
                '(order is the iteration order), that left / starred / right partition the targets, nor error messages.  The TB rules model type analysis / coercion methods '
@@ -50,7 +61,9 @@ NOT_DECIDED = ('that the generated C computes what CPython computes for any prog
                '(which handler must propagate needs_closure), scope lookup rules of Symtab (nonlocal / global resolution).  ARGBIND takes the contracts of __Pyx_ParseKeywords / __Pyx_ArgRef_* / __Pyx_ArgsSlice_* as given '
                '(C24-IDX, C24-KW2, C24-UNKNOWN decide the C side), models Python-object parameters only (C-typed parameters convert in generate_arg_assignment), the used-**kw case only, signatures of at most four '
                'parameters (the generator treats the lists uniformly; the transfer to longer signatures is not decided), not the no-argument / *args-only fast paths (generate_stararg_copy_code), reference '
-               'counting of values[], nor error message texts.  INTEQ inherits the limits of C19-LONGCMP (casts are value-preserving in its evaluator: a float operand truncated by an integer cast is not seen).')
+               'counting of values[], nor error message texts.  UNPACKRUN takes the contracts of the C helpers (__Pyx_IternextUnpackEndCheck, __Pyx_IterFinish, the GET_SIZE / GET_ITEM macros, PyObject_GetIter) as given, models Python-object targets only '
+               '(coercion of an item is `same value`), does not model starred targets (C01-UNPACK decides their index arithmetic) nor error message texts beyond the reported count.  AUGOP does not decide '
+               'PowNode.py_operation_function (2 ** x special case) nor the C side of the flag (`inplace ? PyNumber_InPlaceX : PyNumber_X`, decided by C02-FAST PAIR).  INTEQ inherits the limits of C19-LONGCMP (casts are value-preserving in its evaluator: a float operand truncated by an integer cast is not seen).')
 MUTATIONS = [   # (file, single edit on a scratch copy, rule that reported it) â€” C01-UNPACK
     ('Cython/Compiler/ExprNodes.py', "seed C01a: generate_starred_assignment_code walks the trailing targets forwards but keeps the index len-(i+1)", 'C01-UNPACK fetch'),
     ('Cython/Compiler/ExprNodes.py', "generate_starred_assignment_code: PyList_GET_ITEM(.., len-(i+1)) -> len-i", 'C01-UNPACK fetch'),
@@ -74,6 +87,11 @@ MUTATIONS = [   # (file, single edit on a scratch copy, rule that reported it) â
     ('Cython/Compiler/Nodes.py', "seed C01i / argbind-*: keyword-name table in declaration order; keyword-only slots optional-first; `values` instead of `values + K`; kwd_pos_args counts positional-only; "
                                  "keyword-only defaults skipped; required-keyword loop range; `case i:`; *args sliced from min_positional; fixed arity checked with `<`; pykwdlist[i] for the missing name", 'C01-ARGBIND'),
     ('Cython/Utility/Optimize.c', "seed C01j / inteq-*: sign test of a positive constant dropped; negative constant not negated; zero test inverted; object-result branches of return_compare swapped", 'C01-INTEQ'),
+    ('Cython/Compiler/ExprNodes.py', "seed C01k / unpackrun-*: end check only in the unrolled variant; end check told N+1; size test `<`; expected size reported as obtained; loop bound N-1; IterFinish test inverted; "
+                                    "unrolled index from 1; None test dropped for a list-typed rhs", 'C01-UNPACKRUN'),
+    ('Cython/Compiler/Optimize.py, ParseTreeTransforms.py, ExprNodes.py', "seed C01l / augop-*: flag tested against the wrong operand order; flag only for int literals; negated; constant true; class test AddNode; "
+                                    "cleared for Add/Subtract; binop_node without inplace=True; py_operation_function ignores the flag", 'C01-AUGOP'),
+    ('behaviour-preserving (all silent)', "ok-unpackrun-terminate-early-flag, ok-unpackrun-helper-extracted, ok-unpackrun-loop-threshold-rewritten, ok-augop-flag-if-else, ok-augop-flag-and-form, ok-augop-expand-kwargs-reordered", 'silent'),
     ('not reported (declined)', "inteq-float-truncated ((long) cast of the float operand): the shared C evaluator treats casts as value-preserving", 'none'),
     ('behaviour-preserving (all silent)', "ok-argbind-names-loop-renamed, ok-argbind-helper-extracted, ok-argbind-values-base-early-return-style, ok-inteq-sign-tests-rewritten", 'silent'),
     ('not reported (declined)', "pipeline-drop-decorators, pipeline-closure-order, closure-mark-lambda, nonlocal-lookup-here: see NOT_DECIDED", 'none'),
@@ -84,8 +102,8 @@ MUTATIONS = [   # (file, single edit on a scratch copy, rule that reported it) â
 
 
 def run(ctx):
-    from ..rules import gen, keyerr, sC01, pC01, s7C01, dD9
+    from ..rules import gen, keyerr, sC01, pC01, s7C01, s8C01, dD9
     # pC01.rule_inplace(ctx, pending=True) = C01-INPLACE-NAME: the owner NAME / C-level attribute path of an in-place target is read again for the store (known finding K14)
     return [tree.rule_T1(ctx), tree.rule_T2(ctx), tree.rule_V1_visit(ctx), tree.rule_V2(ctx)] + gen.label_rules(ctx) + [
-        keyerr.rule_keyerror_args(ctx), sC01.rule_unpack(ctx), pC01.rule_minmax(ctx), pC01.rule_inplace(ctx), pC01.rule_inplace(ctx, pending=True), pC01.rule_restore(ctx), pC01.rule_parserole(ctx), pC01.rule_skel(ctx), s7C01.rule_argbind(ctx), s7C01.rule_inteq(ctx),
+        keyerr.rule_keyerror_args(ctx), sC01.rule_unpack(ctx), pC01.rule_minmax(ctx), pC01.rule_inplace(ctx), pC01.rule_inplace(ctx, pending=True), pC01.rule_restore(ctx), pC01.rule_parserole(ctx), pC01.rule_skel(ctx), s7C01.rule_argbind(ctx), s7C01.rule_inteq(ctx), s8C01.rule_unpackrun(ctx), s8C01.rule_augop(ctx),
         dD9.rule_negcmp(ctx)]      # C01-NEGCMP (rules/dD9.py), armed after the repair d92ac965e
